@@ -24,6 +24,20 @@ CLAIMS = {
               'the real 950/9500/1000 thresholds and lowered ones) is decided by differential testing against a dict and the '
               'single-key operations, not yet by a theorem over a Gallina lookup program.'),
         design='4/C16'),
+    'C07': dict(
+        technique='Coq simulation proof (stream model vs in-memory file) + exhaustive small-program differential',
+        text=('PROOF (Coq, closed): Streams.por_step is a transcription of utils.PackedObjectReader (shared pack handle, cached _pos, asserts); '
+              'C07_packed_reader_simulation: for every pack with arbitrary neighbours, every object and EVERY finite program of '
+              'read/seek/tell, results equal the in-memory reference that rejects out-of-range seeks without moving; '
+              'C07_packed_reader_reads_inside: no read returns a byte outside the object; plain files (loose, re-loosened cache): '
+              'C07_plain_file_in_range/_out_of_range; the pre-repair seek is refuted by a concrete witness (C07_packed_reader_v0_refuted, finding F2, fixed). '
+              'TIE: all programs of length <= 2 (thorough: +6000 of length 3 per object) over objects of 0..5 bytes between neighbours in six '
+              'forms are run on the implementation and compared with io.BytesIO; one in five also on the extracted models (exact results), the '
+              'zlib decisions being recorded and passed as oracle; random 14-30 step programs on objects up to 1.3 MB through the public API. '
+              'PARTIAL: for the Zlib decompresser (with/without LazyLooseStream) and CallbackStreamWrapper the executable model exists '
+              '(Streams.zsd_step) and is checked by correspondence, but its simulation theorem is not proved yet; zlib itself is an oracle '
+              'whose laws are validated against the real module on every run.'),
+        design='4/C07'),
 }
 
 NOT_YET = {}
